@@ -3,15 +3,18 @@
 set -e
 N="$1"
 cd /verif
-git merge --no-edit -q ws-$N 2>&1 | tail -3 || {
+if ! git merge --no-edit -q ws-$N >/tmp/merge_$N.log 2>&1; then
+  cat /tmp/merge_$N.log | tail -5
   # generated files may conflict: regenerate them
   for f in lean/Driver.lean lean/VgiVerif.lean MANIFEST.json known_findings.json; do
     git checkout --ours -- $f 2>/dev/null || true
   done
   python3 tools/gen_lean_roots.py
   git add -A
+  if git diff --cached --name-only --diff-filter=U | grep -q .; then echo "UNRESOLVED CONFLICTS"; exit 1; fi
   git commit -q --no-edit
-}
+fi
+rm -f /tmp/merge_$N.log
 echo "--- fix commits of fix-$N:"
 git -C /repo log --oneline --reverse main..fix-$N
 for c in $(git -C /repo log --format=%H --reverse main..fix-$N); do
